@@ -106,6 +106,10 @@ def V(o) -> str:
     if isinstance(o, (list, tuple)):
         return "(VL " + clist([V(x) for x in o], "val") + ")"
     if isinstance(o, U):
+        if not isinstance(o.s, str):
+            # the implementation let through what is not text where only text may go: encode it so that it cannot
+            # match the model's observation, and let the comparison report the case
+            return f"(VL [(VS {cstr('not-text')}); {V(repr(o.s))}])"
         return f"(VB {cpoints(o.s)})"
     raise TypeError(f"cannot encode {type(o)}: {o!r}")
 
